@@ -352,8 +352,8 @@ def replace_cell(P, A):
             sig = 'stories-differ'
         if sig is None and ro.completed:
             sig = 'completed'
-        if sig is None and out.warns:
-            sig = 'warned-' + '+'.join(out.cats())     # fully applied: no mosromgr warning (C06)
+        if sig is None and out.warns and P.get('no_warn'):
+            sig = 'warned-' + '+'.join(out.cats())     # fully applied: no mosromgr warning (C06 only)
     if B.Ctx.replay:
         B.note(sig=sig, observed=B.conc(out.exc) if out.raised else repr(B.snap(B.rc_of(ro)))[:600],
                expected=repr(sent)[:600])
